@@ -17,8 +17,9 @@ import (
 // No logic under test is copied here.
 
 // VerifC12Agent builds an agent with nShards shards whose CurrentTime is `now` and SendTime is `now-2`.
-func VerifC12Agent(nShards int, now uint32, mappings *pcache.MappingsCache, seed uint64) *Agent {
-	config := Config{}
+// legacy selects Config.LegacyApplyValues (--legacy-apply-values).
+func VerifC12Agent(nShards int, now uint32, mappings *pcache.MappingsCache, seed uint64, legacy bool) *Agent {
+	config := Config{LegacyApplyValues: legacy}
 	a := &Agent{
 		config:             config,
 		logF:               func(f string, a ...any) { fmt.Printf(f, a...) },
